@@ -46,7 +46,9 @@ def schedule_strategy(modes=(True, False), meas_modes=('list', 'list', 'list', '
             'gap_len': st.integers(3, 50),
             'gap_dt': st.sampled_from(['span', 'span', 'nominal']),        # dt column over a gap: its length, or an outage (the row after the gap covers its own interval only)
             'inc_cover': st.sampled_from(['full', 'full', 'holes']),       # feedforward only: increments table with missing rows
-            'twin': st.sampled_from([False, False, False, True]),          # a second stream of the first sensor's class (second antenna / receiver)
+            'twin': st.sampled_from([False, False, False, True]),
+            'shuffle': st.sampled_from([False, False, True]),              # measurement tables with their rows not in chronological order
+            'whole_seconds': st.sampled_from([False, False, False, True]),  # 1 s uniform sampling from an integer origin (tables may then carry an integer index)          # a second stream of the first sensor's class (second antenna / receiver)
             'sub': st.integers(0, 2 ** 31 - 1),
             'sensors': st.lists(sensor, min_size=1, max_size=3, unique_by=lambda s: s['cls']),
             'shared': st.lists(epoch_strategy(), min_size=0, max_size=3),
@@ -61,6 +63,8 @@ def schedule_strategy(modes=(True, False), meas_modes=('list', 'list', 'list', '
 def imu_times(case):
     n = case['n']
     rng = np.random.RandomState(case['sub'])
+    if case.get('whole_seconds') and case['sampling'] == 'uniform':
+        return np.floor(case['t0']) + np.arange(n + 1, dtype=float), None
     dts = np.full(n, case['base_dt'])
     if case['sampling'] == 'irregular':
         dts = dts * rng.uniform(0.5, 1.5, n)
@@ -153,6 +157,8 @@ class Scenario:
                 m = measurements.NedVelocity(data[['VN', 'VE', 'VD']], 0.3, arm)
             else:
                 m = measurements.BodyVelocity(data[['VX', 'VY', 'VZ']], 0.3)
+            if case.get('shuffle') and len(m.data) > 1:
+                m.data = m.data.iloc[np.random.RandomState(case['sub'] ^ 0x5f).permutation(len(m.data))]
             self.measurements.append(m)
         if case.get('twin') and case['sensors']:
             # a second stream of the first sensor's class with its own lever arm: half of its samples interleave with the
